@@ -261,8 +261,20 @@ func runCheck(id, only string, noEv bool) int {
 			if fn == nil {
 				return die(2, id, "%s:%d: function %s not found", d.File, d.Line, d.Fn)
 			}
-			ok, why := structuralDeferFirst(fn, argVal(d, "defer-first"))
-			o := &Oblig{T: &Target{D: d, Fn: fn, Short: shortName(fn.String())}, Name: shortName(fn.String()) + "#structural.defer-first[" + argVal(d, "defer-first") + "]", Expect: "unsat", Triv: ok, Result: "unsat"}
+			var ok bool
+			var why, oname string
+			switch {
+			case hasArg(d, "blocking-send"):
+				ok, why = structuralBlockingSend(fn)
+				oname = "#structural.blocking-send"
+			case hasArg(d, "no-go"):
+				ok, why = structuralNoGo(fn)
+				oname = "#structural.no-go"
+			default:
+				ok, why = structuralDeferFirst(fn, argVal(d, "defer-first"))
+				oname = "#structural.defer-first[" + argVal(d, "defer-first") + "]"
+			}
+			o := &Oblig{T: &Target{D: d, Fn: fn, Short: shortName(fn.String())}, Name: shortName(fn.String()) + oname, Expect: "unsat", Triv: ok, Result: "unsat"}
 			if !ok {
 				o.Triv, o.Result, o.Output = false, "unknown", "structural check failed: "+why
 				o.Script = "(check-sat)" // never sent: the verdict is decided on the CFG
